@@ -76,7 +76,7 @@ class C10(E1Check):
         return {"N": 3, "D": 3} if self.tier == "quick" else {"N": 4, "D": 4, "max_states": 30000}
 
     def budget(self):
-        return 600 if self.tier == "quick" else 2400
+        return 600 if self.tier == "quick" else 1200
 
     def op_list(self, cfg):
         base = std_ops(self.alpha, cfg, self.tier)
